@@ -109,6 +109,10 @@ def _distribute_try(computation_graph: ComputationGraph,
             var_hosted.update({c: a})
             agents_capa[a] -= computation_memory(
                 computation_graph.computation(c))
+            if agents_capa[a] < 0:
+                raise ImpossibleDistributionException(
+                    'Not enough capacity on {} for the computations it '
+                    'must host'.format(a))
 
     # First mimic original secp adhoc behavior
     for n in nodes:
@@ -134,8 +138,15 @@ def _distribute_try(computation_graph: ComputationGraph,
 
             mapping[selected].update({n.name, hostwith[0]})
             var_hosted[n.name] = selected
+            if hostwith[0] not in var_hosted:
+                agents_capa[selected] -= computation_memory(
+                    computation_graph.computation(hostwith[0]))
             var_hosted[hostwith[0]] = selected
             agents_capa[selected] -= computation_memory(n)
+            if agents_capa[selected] < 0:
+                raise ImpossibleDistributionException(
+                    'Not enough capacity on {} to host {} with {}'.format(
+                        selected, n.name, hostwith[0]))
 
     for n in nodes:
         if n.name in var_hosted:
